@@ -20,7 +20,7 @@ VERS = ["3.6", "3.7", "3.8", "3.9", "3.10", "3.11", "3.12", "3.13"]
 
 
 def hosts(tier):
-    return [common.PRIMARY] if tier == "quick" else common.HOSTS
+    return common.HOSTS
 
 
 def bounds(tier):
